@@ -367,7 +367,7 @@ func encode(t *rapid.T, text string, open rune) (string, []string) {
 					b.WriteString("`LF`")
 				}
 			default:
-				b.WriteString(fmt.Sprintf("`U+%X`", c))
+				b.WriteString(uplus(t, c))
 			}
 		case c == '\t' && rapid.Bool().Draw(t, "tab"):
 			b.WriteString("`TAB`")
@@ -375,7 +375,7 @@ func encode(t *rapid.T, text string, open rune) (string, []string) {
 			b.WriteString("`SP`")
 		default:
 			if rapid.IntRange(0, 12).Draw(t, "uplus") == 0 {
-				b.WriteString(fmt.Sprintf("`U+%X`", c))
+				b.WriteString(uplus(t, c))
 			} else {
 				b.WriteRune(c)
 			}
@@ -383,6 +383,12 @@ func encode(t *rapid.T, text string, open rune) (string, []string) {
 	}
 	b.WriteRune(cl)
 	return b.String(), labels
+}
+
+// uplus - the `U+hex` escape of c, zero-padded to any of the documented widths (1..8 digits)
+func uplus(t *rapid.T, c rune) string {
+	w := rapid.IntRange(1, 8).Draw(t, "hexwidth")
+	return fmt.Sprintf("`U+%0*X`", w, c)
 }
 
 func checkRoundTrip(c rtCase) []h.Failure {
